@@ -92,6 +92,8 @@ def convertMCNPGeometry(mcnp_parser, lattice_params, args):
                 print(' done', flush=True)
 
     dic_volume, mcnp_new_dict, dic_surface_t4, skipped_cells, union_ids = vol_conv
+    # the surfaces that bound some cell, before identical surfaces are merged
+    bounding_surfs = extract_used_surfaces(dic_volume.values())
     renumber = {}
     if not args.skip_deduplication:
         dic_surface_t4, renumber = remove_duplicate_surfaces(dic_surface_t4)
@@ -107,7 +109,7 @@ def convertMCNPGeometry(mcnp_parser, lattice_params, args):
     verif_emit('final', volumes=dic_volume, numbering=dic_surface_t4)
 
     return (dic_surface_mcnp, dic_surface_t4, dic_volume, mcnp_new_dict,
-            skipped_cells, renumber)
+            skipped_cells, renumber, bounding_surfs)
 
 
 def writeT4Geometry(dic_surface_t4, dic_volume, skipped_cells, ofile):
